@@ -276,6 +276,39 @@ nd::harnesses! {
         assert!(out == sentinel, "out slot untouched at the end");
     }
 
+    /// Iterator with DROPPABLE items, advanced the way a C loop does it (one uninitialised slot, reused):
+    /// the next function only WRITES the slot - it never reads or drops what was there.
+    #[kani::unwind(6)]
+    fn c16_citerator_view_droppable_items() {
+        reset();
+        let n = nd::range(0, 3);
+        let mut src: [Option<Pay>; 3] = [None, None, None];
+        let mut i = 0;
+        while i < n {
+            src[i] = Some(Pay::new(20 + i as u32));
+            i += 1;
+        }
+        {
+            let mut it = src.iter_mut().filter_map(|s| s.take());
+            let ci = CIterator::new(&mut it);
+            let view: CIterator_i32 = unsafe { transmute_copy(&ci) };
+            let func: extern "C" fn(*mut u8, *mut Pay) -> i32 = unsafe { core::mem::transmute(view.func) };
+            let mut slot = MaybeUninit::<Pay>::uninit();
+            let mut j = 0;
+            while j < n {
+                assert!(func(view.iter as *mut u8, slot.as_mut_ptr()) == 0);
+                // the C caller takes the item out of the slot and releases it
+                let item = unsafe { slot.as_ptr().read() };
+                assert!(item.val == 20 + j as u32 && item.is_live());
+                drop(item);
+                assert!(drops() == j as u32 + 1, "exactly the yielded item was released, nothing else");
+                j += 1;
+            }
+            assert!(func(view.iter as *mut u8, slot.as_mut_ptr()) != 0);
+        }
+        assert!(live() == 0 && drops() == n as u32 && made() == n as u32);
+    }
+
     /// Option/result tags: None=0/Some=1, Ok=0/Err=1, read as a C int at offset 0, payload at the
     /// offset C gives it (`struct { int tag; union { T .. } }`), for payloads of different size and
     /// alignment. (Fields are read individually: Kani's object for an enum value has no trailing
